@@ -111,14 +111,14 @@ func HIncludeSplit() {
 		return
 	}
 	if vParam("debug", 0) == 1 {
-		dA, dB := vDigest(cA), vDigest(cB)
+		dA, dB := vDigestDeep(cA), vDigestDeep(cB)
 		for i := range dA {
 			if i < len(dB) && dA[i] != dB[i] {
 				vObserve("diff", dA[i], dB[i], piece)
 			}
 		}
 	}
-	vSameDigest(vDigest(cA), vDigest(cB), "c09-include-changes-catalog")
+	vSameDigest(vDigestDeep(cA), vDigestDeep(cB), "c09-include-changes-catalog")
 	if vParam("closure", 0) == 1 {
 		vCheckClosure(cB)
 	}
